@@ -59,6 +59,9 @@ def build(cfg):
     if fam == "pi4qpsk":
         g = cfg[1] == "gray"
         return pi4qpsk.Pi4QPSKModulator(gray_coded=g), pi4qpsk.Pi4QPSKDemodulator(gray_coded=g)
+    if fam == "bpsk_real":
+        # rarely used option: real-valued BPSK symbols (not part of catalogue(); used where a contract asks for it explicitly)
+        return psk.BPSKModulator(complex_output=False), psk.BPSKDemodulator()
     if fam == "identity":
         from kaira.modulations.identity import IdentityDemodulator, IdentityModulator
 
